@@ -77,6 +77,8 @@ VECTORS = [
     (["version"] + NONE + ["1.2.3", "--output-template", "{{ hash_int(value='x', length=70000, allow_leading_zero=true) | length }}"], None),
     (["version"] + NONE + ["1.2.3", "--output-template", "{{ hash(value='x', length=100000000000000) }}{{ prefix(value='x', length=18446744073709551615) }}"], None),
     (["version"] + NONE + ["1.2.3", "--output-template", "{% macro f() %}{{ self::f() }}{% endmacro f %}{{ self::f() }}"], None),
+    (["check", b"\xff\xfe"], None),
+    (["version", "--source", "none", "--tag-version", "1.2.3", "--bumped-branch", b"feat/\xe9"], None),
     (["render", "1.2.3"], None),
     (["render", "1.2.3-alpha.1+b.7", "--output-format", "pep440"], None),
     (["render", "1!2.0rc1.post2.dev3+x.1", "--input-format", "pep440", "--output-format", "semver"], None),
@@ -190,13 +192,13 @@ def run(tier="quick", seed=0):
             if rc is None:
                 bad("no-termination", f"`zerv {show}` did not terminate within 60 s")
                 return None
-            if (rc < 0 or rc == 134) and any("macro" in a for a in argv):
+            if (rc < 0 or rc == 134) and any(isinstance(a, str) and "macro" in a for a in argv):
                 bad("tera-macro-recursion", f"`zerv {show}` aborts (status {rc}): {err.decode('utf-8', 'replace')[-160:]!r}")
                 return None
             if rc < 0 or rc in (101, 134) or b"panicked at" in err:
                 bad("panic", f"`zerv {show}` panicked or was killed (status {rc}): {err.decode('utf-8', 'replace')[:300]!r}")
                 return None
-            if rc == 0 and not out.strip() and argv and not any(a in ("--output-template", "--template") for a in argv):
+            if rc == 0 and not out.strip() and argv and not any(a in ("--output-template", "--template") for a in argv if isinstance(a, str)):
                 # (no sub-command: nothing was requested; a template may legitimately render to nothing)
                 bad("empty-success", f"`zerv {show}` exited 0 with nothing on stdout")
             if rc != 0 and out:
@@ -210,7 +212,7 @@ def run(tier="quick", seed=0):
             if plain is None:
                 continue
             for extra_argv, extra_env, label in ([["-v"], {}, " -v"], [[], {"RUST_LOG": "debug"}, " (RUST_LOG=debug)"]):
-                if not argv or argv[0].startswith("-"):
+                if not argv or argv[0].startswith("-") or any(isinstance(a, bytes) for a in argv):
                     continue
                 again = discipline(argv + extra_argv, stdin_text, work, dict(base_env, **extra_env), label)
                 if again is None:
@@ -459,6 +461,20 @@ def run_bumps(tier="quick", seed=0):
                 if rc != 0 or got != want:
                     bad("bounded-agreement", f"`zerv {' '.join(argv[2:])}`: status {rc}, prints {got!r}; the level semantics give {want!r}"
                         + (f" (stderr: {err.decode('utf-8', 'replace')[:160]!r})" if rc != 0 else ""))
+        # "an index-addressed operation (`--bump-core i`, `--core i=v`, negative or `~n` indices) performs … the same override or bump
+        # on the component at that position as the by-name flag would": each index form against the by-name flag
+        base = ["version", "--source", "none", "--tag-version", "1.2.3-rc.4.post.5.dev.6", "--output-format", "semver", "--schema", "standard-base-prerelease-post-dev"]
+        pairs = [(["--bump-core", "2"], ["--bump-patch"]), (["--bump-core", "~1"], ["--bump-patch"]), (["--bump-core=-1"], ["--bump-patch"]), (["--bump-core", "~3=2"], ["--bump-major", "2"]),
+                 (["--bump-core", "0=4"], ["--bump-major", "4"]), (["--core", "1=9"], ["--minor", "9"]), (["--core", "~2=9"], ["--minor", "9"]), (["--core=-3=7"], ["--major", "7"]),
+                 (["--bump-extra-core", "~1"], ["--bump-dev"]), (["--bump-extra-core", "2"], ["--bump-post"]), (["--extra-core", "~2=8"], ["--post", "8"]),
+                 (["--bump-extra-core", "1=3"], ["--bump-pre-release-num", "3"]), (["--extra-core", "0=6"], ["--epoch", "6"])]
+        for by_index, by_name in pairs:
+            res["cases"] += 1
+            r1 = _run(zerv, base + by_index, None, work, env)
+            r2 = _run(zerv, base + by_name, None, work, env)
+            if r1[0] != r2[0] or r1[1] != r2[1]:
+                bad("index-addressed", f"`zerv … {' '.join(by_index)}` gives status {r1[0]} {r1[1].decode('utf-8', 'replace').strip()!r} "
+                                       f"({r1[2].decode('utf-8', 'replace').strip()[:120]!r}); the by-name flag `{' '.join(by_name)}` gives status {r2[0]} {r2[1].decode('utf-8', 'replace').strip()!r}")
     finally:
         shutil.rmtree(work, ignore_errors=True)
     res["wall_s"] = round(time.time() - t0, 2)
